@@ -88,7 +88,7 @@ CLAIMED = {
             "the next event has arrived. C13_trace/C13_open_first assume keepalive and reconnect off; C13_trace_keepalive lifts C13_trace to any ping interval without a ping timeout. The real "
             "run_forever runs under the scheduler on the same world/plan/schedule; traces must be identical; Spec predicates judge the real trace.",
             "The app consumes already-parsed events (byte level = C02-C07 layer); kernel/SSL buffering as simulated.", "DESIGN.md §6 C13"),
-    "C14": ("Lean 4 theorems C14_once_last, C14_return_value, C14_clean, C14_rerun (all worlds/plans/schedules), C14_terminates, C14_close_args (one connection), C14_closing_is_not_an_error, C14b.C14_close_in_open_clean, C14_rerun_settings, C14c.C14_terminates_keepalive / C14_close_args_keepalive (keepalive without a ping timeout), C14d.C14_quiet_once_stopped (once keep_running is off every continuation of the run adds no dial and no error report)" + T_CORR + " incl. second-thread close at every executed line",
+    "C14": ("Lean 4 theorems C14_once_last, C14_return_value, C14_clean, C14_rerun (all worlds/plans/schedules), C14_terminates, C14_close_args (one connection), C14e.C14_terminates_reconnecting (reconnecting runs over any mix of failed attempts and lost connections: returns, on_close last with the server's code and reason), C14_closing_is_not_an_error, C14b.C14_close_in_open_clean, C14_rerun_settings, C14c.C14_terminates_keepalive / C14_close_args_keepalive (keepalive without a ping timeout), C14d.C14_quiet_once_stopped (once keep_running is off every continuation of the run adds no dial and no error report)" + T_CORR + " incl. second-thread close at every executed line",
             "Proof: on_close once and last, return value, resources gone, re-run = first run, for every world, every callback plan (close / "
             "KeyboardInterrupt / raise anywhere) and schedule; termination and close arguments for one connection with legal traffic. "
             "Second-thread close (C14_async_close_safe) is NOT modelled: checked on real runs only (preemption at ticks and at every executed "
